@@ -1986,7 +1986,7 @@ func (vm *Thread) opPromise() {
 		threadPool = (*ThreadPool)(arg.Pointer())
 	}
 
-	promise := NewPromise(threadPool, generator)
+	promise := newPromiseFromThread(vm, threadPool, generator)
 	vm.push(value.Ref(promise))
 }
 
